@@ -4,8 +4,8 @@
    under a `_partial` twin (see DESIGN.md section 9). *)
 From Coq Require Import List String Bool.
 Import ListNotations.
-From DI Require Import Syntax Subs Superset Substitute Spec Examples.
-From DI.proofs Require Import Basics SupersetSound SupersetExact SubstituteProofs.
+From DI Require Import Syntax Tokens Bounds Subs Superset Substitute Spec Examples.
+From DI.proofs Require Import Basics SupersetSound SupersetExact SubstituteProofs BoundsProofs.
 
 (* ===================================================================================== *)
 (* C09 -- header generalisation is exact first-order matching                             *)
@@ -97,3 +97,46 @@ Example C10_nonvacuous :
   wf_subsb s = true /\ stable_key s b t = true /\ List.length (subst_key s b t) = 4.
 Proof. vm_compute. repeat split. Qed.
 Print Assumptions C10_nonvacuous.
+
+(* ===================================================================================== *)
+(* C12 -- dispatch-key identity ignores associated-type bindings and nothing else         *)
+(* ===================================================================================== *)
+
+(* two bounds are the same key exactly when their identities -- leading colon, tokens of the
+   leading segments, last identifier, tokens of the non-binding arguments -- coincide *)
+Theorem C12_iff_identity : forall p q,
+  tb_eqb p q = true <-> (tb_key p = tb_key q /\ tb_key p <> None).
+Proof. exact tb_eqb_iff. Qed.
+Print Assumptions C12_iff_identity.
+
+Theorem C12_refl : forall p, tb_key p <> None -> tb_eqb p p = true.
+Proof. exact tb_eqb_refl. Qed.
+Print Assumptions C12_refl.
+
+Theorem C12_sym : forall p q, tb_eqb p q = true -> tb_eqb q p = true.
+Proof. exact tb_eqb_sym. Qed.
+Print Assumptions C12_sym.
+
+Theorem C12_trans : forall p q r, tb_eqb p q = true -> tb_eqb q r = true -> tb_eqb p r = true.
+Proof. exact tb_eqb_trans. Qed.
+Print Assumptions C12_trans.
+
+(* equal keys feed the same strings to the hasher: equal hashes for every hasher state *)
+Theorem C12_hash_agrees : forall p q, tb_eqb p q = true -> tb_hash_input p = tb_hash_input q.
+Proof. exact tb_hash_agrees. Qed.
+Print Assumptions C12_hash_agrees.
+
+(* bindings are ignored: the bound with its bindings removed (what is emitted) is the same
+   key as the user's bound -- Tr, Tr<> and Tr<A = X> alike *)
+Theorem C12_bindings_ignored : forall p, tb_key p <> None -> tb_eqb p (strip_bindings p) = true.
+Proof. exact tb_eqb_strip. Qed.
+Print Assumptions C12_bindings_ignored.
+
+Example C12_nonvacuous :
+  let p := Node (K "Path" "") [seg "m" anone; seg "D" (aangle [gty (tC0 "u8"); gassoc "G" (tC0 "A")])] in
+  let q := Node (K "Path" "") [seg "m" anone; seg "D" (aangle [gty (tC0 "u8")])] in
+  let r := Node (K "Path" "::") [seg "m" anone; seg "D" (aangle [gty (tC0 "u8")])] in
+  tb_eqb p q = true /\ tb_eqb q r = false /\
+  tb_tokens p = ["m"; "::"; "D"; "<"; "u8"; ">"]%string.
+Proof. vm_compute. repeat split. Qed.
+Print Assumptions C12_nonvacuous.
